@@ -432,6 +432,35 @@ func checkC18(c *run.Ctx) {
 			return p
 		},
 	}
+	// a set of two entries, one good key and one entry that is no decodable key: with no id requested there is no
+	// "only key" (asked for by id, the property leaves it open whether the good key may still be handed out)
+	if goodSet, _, err := jwkutil.NewKeyPair("alpha", jwa.EdDSA); err == nil {
+		gk, _ := goodSet.Key(0)
+		gb, _ := json.Marshal(gk)
+		for bi, sibling := range []string{`{"kty":"EC","crv":"P-521","x":"AA"}`, `{"kty":"AKP","kid":"beta"}`, `null`, `{"kty":"OKP","crv":"Ed25519","x":"!!!not-base64url"}`, `{"kty":"RSA","kid":17,"n":"AQAB","e":"AQAB"}`} {
+			for order := 0; order < 2; order++ {
+				body := `{"keys":[` + string(gb) + `,` + sibling + `]}`
+				if order == 1 {
+					body = `{"keys":[` + sibling + `,` + string(gb) + `]}`
+				}
+				name := fmt.Sprintf("good-key-next-to-undecodable-entry-%d-%d", bi, order)
+				path := filepath.Join(scratch, name+".json")
+				must(c, os.WriteFile(path, []byte(body), 0o600))
+				var lerr error
+				var k jwk.Key
+				if pi := run.Guard(func() { k, lerr = jwkutil.LoadKey(path, "") }); pi != nil {
+					c.Violation("bad/"+name, map[string]any{"what": "LoadKey panicked: " + pi.Value, "stack": pi.Stack})
+					continue
+				}
+				c.Eval(1)
+				if lerr == nil {
+					c.Violation("bad/"+name, map[string]any{"what": fmt.Sprintf("a key-set file with two entries (one good key, one entry that is not a decodable key) and no requested id: LoadKey returned key %q as if it were the only key", k.KeyID()), "file": body})
+				}
+				c.Count("loadkey_two_entries_one_undecodable", 1)
+				_ = os.Remove(path)
+			}
+		}
+	}
 	names := make([]string, 0, len(bad))
 	for n := range bad {
 		names = append(names, n)
